@@ -1447,6 +1447,40 @@ def repeated_generic_specs(draw, mods=2):
 
 
 @st.composite
+def typeddict_hierarchy_specs(draw):
+    """A TypedDict that extends a TypedDict of the *other* totality (or of the same one): which keys are required is decided per
+    declaring class - `class Extended(Base, total=False)` keeps the required keys of a total Base. At the root or one container
+    level down."""
+    names = Names(False)
+    fl = draw(st.sampled_from(["typeddict_partial", "typeddict_partial", "typeddict"]))
+    leafs = [S("int"), S("str"), S("Decimal"), S("date"), {"k": "list", "sp": "list", "a": [S("int")]}, S("UUID"), S("float")]
+    nf = draw(st.integers(2, 5))
+    fields = [{"n": n, "t": draw(st.sampled_from(leafs))} for n in draw(st.permutations(["id", "name", "note", "when", "tags", "size"]))[:nf]]
+    spec = {"k": "class", "name": names.fresh("TD"), "mod": 0, "flavour": fl, "future": False, "fields": fields,
+            "inherit": draw(st.integers(1, nf - 1))}
+    if draw(st.integers(0, 3)):
+        other = "typeddict" if fl == "typeddict_partial" else "typeddict_partial"
+        spec["base_flavour"] = other
+        for f in fields[:spec["inherit"]]:
+            # (the markers say what a key is for users of the subclass: the base's totality decides for the keys it declares)
+            f["notreq" if other == "typeddict_partial" else "req"] = True
+    if draw(st.integers(0, 3)) == 0:
+        spec["te"] = True
+    for f in fields[spec["inherit"]:]:
+        # markers on the subclass's own keys, against its own totality
+        if fl == "typeddict" and draw(st.integers(0, 3)) == 0:
+            f["notreq"] = True
+        if fl == "typeddict_partial" and draw(st.integers(0, 3)) == 0:
+            f["req"] = True
+    shape = draw(st.sampled_from(["root", "root", "list", "dict"]))
+    if shape == "list":
+        return {"k": "list", "sp": "list", "a": [spec]}
+    if shape == "dict":
+        return {"k": "dict", "sp": "dict", "a": [S("str"), spec]}
+    return spec
+
+
+@st.composite
 def scalar_union_specs(draw, mods=1):
     """Unions of 2-4 leaf members (scalars, enums, literals; `str` at any position, None anywhere), at the root or one
     container level down: the annotations in which one input class is taken by different members depending on the value."""
